@@ -141,9 +141,15 @@ func (prop) Run(line string) core.Outcome {
 		}
 	}
 	end := ""
+	fuel := 0
 	if !hung {
-		// drain: lowest-numbered enabled thread first
-		for progress := true; progress && !hung; {
+		// drain: lowest-numbered enabled thread first; at most 6*ops+8 regions (the model's bound,
+		// far more than any run of the correct code needs: a run that exhausts it never settles)
+		fuel = 8
+		for _, p := range progs {
+			fuel += 6 * len(p)
+		}
+		for progress := true; progress && !hung && fuel > 0; {
 			progress = false
 			for _, t := range c.threads {
 				if t.done() {
@@ -156,6 +162,7 @@ func (prop) Run(line string) core.Outcome {
 				}
 				if do(t, true) {
 					progress = true
+					fuel--
 					break
 				}
 				if hung {
@@ -169,7 +176,10 @@ func (prop) Run(line string) core.Outcome {
 		for _, t := range c.threads {
 			all = all && t.done()
 		}
-		if all {
+		if !all && fuel == 0 {
+			end = "fuel"
+			toks = append(toks, "end:fuel")
+		} else if all {
 			end = "ok"
 			var items []rngItem
 			c.up.Range(func(key, value any) bool {
